@@ -1209,10 +1209,10 @@ Proof.
   destruct q as [k [|c r]|k d|k v|k]; try (cbn [render_qual]; constructor; [apply skipped_ind|constructor]).
   rewrite render_qtext. apply qtext_go_skipped.
 Qed.
-Lemma render_feat_skipped f : wf_afeat f = true -> Forall skipped (render_feat f).
+Lemma render_feat_skipped f : wf_afeat_pre f = true -> Forall skipped (render_feat f).
 Proof.
-  intros W. unfold wf_afeat, wf_afeat_pre in W.
-  apply andb_prop in W. destruct W as [W _]. apply andb_prop in W. destruct W as [W _].
+  intros W. unfold wf_afeat_pre in W.
+  apply andb_prop in W. destruct W as [W _].
   apply andb_prop in W. destruct W as [W _].
   apply andb_prop in W. destruct W as [W Wor]. apply andb_prop in W. destruct W as [W Wlen].
   apply andb_prop in W. destruct W as [Wne Wch].
@@ -1235,11 +1235,14 @@ Proof. unfold upper. rewrite map_map. apply map_ext. intros c. destruct c; refle
 
 Definition dummy_fts : st := set_mode (st0 None) PFts.
 
-Lemma features_oklines fs : forallb wf_afeat fs = true -> Forall okline (flat_map render_feat fs).
+Lemma features_oklines fs : forallb wf_afeat_pre fs = true -> Forall okline (flat_map render_feat fs).
 Proof.
-  intros W. assert (P : pend_view dummy_fts []) by (exists dummy_fts; repeat split).
-  destruct (features_lines [] eq_refl fs dummy_fts [] eq_refl P W) as [F _]. exact F.
+  induction fs as [|f r IH]; cbn [forallb flat_map]; intros W; [constructor|]. apply andb_prop in W. destruct W as [Wf Wr].
+  apply Forall_app. split; [|apply IH; exact Wr].
+  destruct (feature_pre [] eq_refl f dummy_fts dummy_fts eq_refl eq_refl eq_refl (hframe_refl _) Wf) as [F _]. exact F.
 Qed.
+Lemma wf_afeat_all_pre fs : forallb wf_afeat fs = true -> forallb wf_afeat_pre fs = true.
+Proof. apply forallb_impl. intros f H. unfold wf_afeat in H. apply andb_prop in H. tauto. Qed.
 
 Definition rec_pre (r : arec) : list str :=
   flat_map render_hfield (ahdr r) ++ [feat_header] ++ flat_map render_feat (afts r)
@@ -1263,13 +1266,14 @@ Proof.
 Qed.
 
 (* header and feature-table lines of a record, up to the point where the ORIGIN line or '//' comes *)
-Lemma table_steps excl r k2 : forallb wf_hfield (ahdr r) = true -> forallb wf_afeat (afts r) = true ->
+Lemma table_steps excl r k2 : forallb wf_hfield (ahdr r) = true -> forallb wf_afeat_pre (afts r) = true ->
+  (mem k_fts excl = false -> forallb wf_afeat (afts r) = true) ->
   Forall okline (flat_map render_hfield (ahdr r) ++ [feat_header] ++ flat_map render_feat (afts r)) /\
   exists s2, steps_any excl (st0 k2) (flat_map render_hfield (ahdr r) ++ [feat_header] ++ flat_map render_feat (afts r)) = ROk s2
     /\ mode s2 = PFts /\ acc_ok (attrs s2) (view_id r) /\ attrs s2 = view_hdr (ahdr r) /\ seq s2 = [] /\ mfts s2 = None
     /\ (if mem k_fts excl then fttype s2 = None else pend_view s2 (map feat0 (afts r))).
 Proof.
-  intros Whdr Wfts.
+  intros Whdr Wfts Wfull.
   destruct (fields_lines excl (ahdr r) Whdr (st0 k2) None eq_refl eq_refl) as (F1 & sh & S1 & M1 & Fr1 & A1 & E1).
   destruct Fr1 as (_ & R2 & R3 & R4 & R5 & R6 & R7 & R8). cbn in R2, R3, R4, R5, R6, R7, R8.
   set (sf := set_hdr (set_mode sh PFts) (attrs sh) None None).
@@ -1284,7 +1288,7 @@ Proof.
     exists sf. split; [|repeat split; try assumption; reflexivity].
     rewrite steps_any_app, S1. cbn [app steps_any]. rewrite step_feat_header by exact M1. fold sf. exact S2.
   - assert (P0 : pend_view sf []) by (exists sf; split; [apply flush_none; exact R3|]; split; [exact R2|]; split; [exact R3|apply hframe_refl]).
-    destruct (features_lines excl He (afts r) sf [] eq_refl P0 Wfts) as (_ & s2 & S2 & M2 & Fr2 & P2).
+    destruct (features_lines excl He (afts r) sf [] eq_refl P0 (Wfull eq_refl)) as (_ & s2 & S2 & M2 & Fr2 & P2).
     destruct Fr2 as (_ & B2 & _ & _ & B5 & B6). cbn in B2, B5, B6.
     exists s2. split; [|split; [exact M2|split; [rewrite B2; exact A1|split; [rewrite B2; exact E1|split; [congruence|split; [congruence|exact P2]]]]]].
     rewrite steps_any_app, S1. cbn [app steps_any]. rewrite step_feat_header by exact M1. fold sf. exact S2.
@@ -1296,7 +1300,11 @@ Proof.
   intros W. unfold wf_arec in W.
   apply andb_prop in W. destruct W as [W Wor]. apply andb_prop in W. destruct W as [W Wpos]. apply andb_prop in W. destruct W as [W Wseq].
   apply andb_prop in W. destruct W as [W Wfts]. apply andb_prop in W. destruct W as [Whdr _].
-  destruct (table_steps excl r k2 Whdr Wfts) as (F & s2 & S2 & M2 & A2 & E2 & Q2 & N2 & P2).
+  assert (Wpre : forallb wf_afeat_pre (afts r) = true).
+  { eapply forallb_impl; [|exact Wfts]. intros f H. apply andb_prop in H. tauto. }
+  assert (Wfull : mem k_fts excl = false -> forallb wf_afeat (afts r) = true).
+  { intros He. eapply forallb_impl; [|exact Wfts]. intros f H. rewrite He in H. cbn [orb] in H. exact H. }
+  destruct (table_steps excl r k2 Whdr Wpre Wfull) as (F & s2 & S2 & M2 & A2 & E2 & Q2 & N2 & P2).
   destruct okline_concrete as [Ofh Ool].
   unfold rec_pre. rewrite !app_assoc. rewrite <- (app_assoc _ [feat_header]).
   destruct (aorigin r) eqn:Eo.
